@@ -66,7 +66,9 @@ ObsPartitionOK(e, st) ==
 RowEqual(r) == IF r.integral THEN r.on = r.off ELSE \A i \in 1..Len(r.eq) : r.eq[i]
 
 (* observed series = the series the stated semantics gives (binds Sol to the real solver) *)
+HasQuo(st) == \E x \in DOMAIN st.orig.endo : st.orig.endo[x].def.kind = "quo"
 SolAgrees(e, st) ==
+    HasQuo(st) \/
     LET so == SolUpTo(st.orig, MaxK)
         sr == SolUpTo(SysOf(st), MaxK)
     IN \A i \in 1..Len(e.rows) :
